@@ -8,6 +8,7 @@ CONSTANTS
   Fmts = {"bc_idx"}
   NFiles = {1}
   Lazy = {"none"}
+  ProbeMax = 5
   Touches = {"lookup"}
   Variant = "design"
 CONSTRAINT Emit
